@@ -80,10 +80,38 @@ def _match(p, n, b):
                 return False
         return True
     if isinstance(p, list):
+        if not isinstance(n, list):
+            return False
+        if any(_is_ellipsis_stmt(x) for x in p):
+            return _match_glob(p, n, b)
         if len(p) != len(n):
             return False
         return all(_match(x, y, b) for x, y in zip(p, n))
     return p == n
+
+
+def _is_ellipsis_stmt(x):
+    return isinstance(x, ast.Expr) and isinstance(x.value, ast.Constant) and x.value.value is Ellipsis
+
+
+def _match_glob(p, n, b):
+    """Statement-list match where a `...` statement stands for any run (possibly empty) of statements."""
+    if not p:
+        return not n
+    if _is_ellipsis_stmt(p[0]):
+        for k in range(len(n) + 1):
+            b2 = dict(b)
+            if _match_glob(p[1:], n[k:], b2):
+                b.clear(); b.update(b2)
+                return True
+        return False
+    if not n:
+        return False
+    b2 = dict(b)
+    if _match(p[0], n[0], b2) and _match_glob(p[1:], n[1:], b2):
+        b.clear(); b.update(b2)
+        return True
+    return False
 
 
 def match_expr(src, node, binds=None):
@@ -221,6 +249,11 @@ def afind(model, fn, src, root=None):
     roots = [root] if isinstance(root, ast.AST) else list(root)
     if p is not None and not only_expr:
         k = len(p)
+        if not isinstance(root, ast.AST) and roots and all(isinstance(x, ast.stmt) for x in roots):
+            for i in range(0, len(roots) - k + 1):     # the given statement list itself
+                b = {}
+                if _match(p, roots[i:i + k], b):
+                    out.append((roots[i], b))
         for r in roots:
             for n in ast.walk(r):
                 for f in ("body", "orelse", "finalbody"):
@@ -240,3 +273,18 @@ def afind(model, fn, src, root=None):
                 if _match(pe, n, b):
                     out.append((n, b))
     return out
+
+
+def shape(model, fn, node):
+    """Rename-invariant text of `node` (a sub-tree of function `fn`): local names are replaced by _1, _2, ... in order of first appearance."""
+    import copy
+    fixed = _fixed_names(model, fn)
+    names = {}
+
+    class R(ast.NodeTransformer):
+        def visit_Name(self, n):
+            if n.id in fixed:
+                return n
+            names.setdefault(n.id, f"_{len(names) + 1}")
+            return ast.copy_location(ast.Name(id=names[n.id], ctx=n.ctx), n)
+    return ast.unparse(R().visit(copy.deepcopy(node)))
